@@ -9,6 +9,8 @@ from .facts import walk
 from . import hirq
 from .hirq import peel, callee
 
+RECV_ONLY_METHODS = {"ok_or", "ok_or_else", "expect", "unwrap", "ok", "try_into", "to_owned", "borrow", "as_ref", "cloned", "copied",
+                     "clone", "into", "iter", "iter_mut", "enumerate", "rev", "into_iter", "to_vec", "as_slice"}
 PASS_THROUGH_METHODS = {"clone", "into", "min", "max", "unwrap_or", "unwrap_or_default", "to_owned", "borrow", "as_ref",
                         "saturating_sub", "saturating_add", "checked_sub", "checked_add", "wrapping_add", "wrapping_sub",
                         "try_into", "unwrap", "expect", "ok", "ok_or", "cloned", "copied", "iter", "iter_mut", "enumerate", "rev", "into_iter"}
@@ -71,6 +73,20 @@ class Body:
             elif k == "Loop" and n.get("src", "").startswith("ForLoop"):
                 pass
 
+    def _project(self, o, idx, seen, depth):
+        if o.get("k") == "Tup" and idx < len(o["es"]):
+            return self.origins(o["es"][idx], set(seen), depth + 1)
+        if o.get("k") == "Array":
+            res = []
+            for x in o["es"]:
+                px = peel(x)
+                if px.get("k") == "Tup" and idx < len(px["es"]):
+                    res.extend(self.origins(px["es"][idx], set(seen), depth + 1))
+                else:
+                    res.append({"k": "TupleFieldOf", "of": x, "index": idx})
+            return res
+        return [{"k": "TupleFieldOf", "of": o, "index": idx}]
+
     def origins(self, e, seen=None, depth=0):
         """Set of origin nodes (dict nodes) for expression e."""
         if seen is None:
@@ -96,18 +112,26 @@ class Body:
                 out.append({"k": "UnknownLocal", "name": e.get("name")})
             return out
         if k == "MethodCall":
+            if e.get("m") in RECV_ONLY_METHODS:
+                return self.origins(e["recv"], seen, depth + 1)
             if e.get("m") in PASS_THROUGH_METHODS:
                 out.extend(self.origins(e["recv"], seen, depth + 1))
                 for a in e["args"]:
                     out.extend(self.origins(a, seen, depth + 1))
                 return out
             return [e]
+        if k == "Call" and e.get("exp") and "vec" in e["exp"]:
+            # vec![..] literal: the value is the array inside the expansion
+            for x in walk(e):
+                if x.get("k") in ("Array", "Repeat"):
+                    return [x]
         if k == "Call":
             d = callee(e)
             if d and d.endswith(("::Ok", "::Some", "::Err")) and e["args"]:
                 return self.origins(e["args"][0], seen, depth + 1)
             if d in ("core::convert::From::from", "core::convert::Into::into", "core::iter::traits::iterator::Iterator::next",
-                     "core::iter::traits::collect::IntoIterator::into_iter") and e["args"]:
+                     "core::iter::traits::collect::IntoIterator::into_iter", "alloc::slice::<impl [T]>::into_vec",
+                     "alloc::boxed::Box::<T>::new", "alloc::boxed::box_assume_init_into_vec_unsafe", "alloc::boxed::box_new") and e["args"]:
                 # for-loop desugaring: the loop variable derives from the iterated expression (e.g. range bounds)
                 return self.origins(e["args"][0], seen, depth + 1)
             return [e]
@@ -126,11 +150,121 @@ class Body:
         if k == "Block":
             return self.origins(e["b"].get("expr"), seen, depth + 1)
         if k in ("Tup", "Array"):
-            for x in e["es"]:
-                out.extend(self.origins(x, seen, depth + 1))
-            return out
+            return [e]
         if k == "Field":
+            nm = e.get("name", "")
+            if nm.isdigit():
+                # tuple field: project tuple literals among the base's origins
+                idx = int(nm)
+                res = []
+                for o in self.origins(e["e"], seen, depth + 1):
+                    res.extend(self._project(o, idx, seen, depth))
+                return res
             return [e]
         if k == "Index":
             return [e]
         return [e]
+
+
+class Deep:
+    """Interprocedural origin resolution: parameters are expanded to the arguments at every resolved call site,
+    struct field reads to every initialiser of that field, both within the given crates, up to a depth bound.
+    terminal(origin_node) decides where to stop; returns the set of terminal nodes reached plus 'open' markers
+    for origins that could not be expanded (public entry parameters, unknown calls)."""
+
+    def __init__(self, F, crates):
+        self.F = F
+        self.crates = crates
+        self.bodies = {}
+        self.calls = None
+        self.inits = None
+
+    def body(self, f):
+        b = self.bodies.get(f["path"])
+        if b is None:
+            b = Body(f)
+            self.bodies[f["path"]] = b
+        return b
+
+    def _index(self):
+        if self.calls is not None:
+            return
+        self.calls = {}
+        self.inits = {}
+        for f in self.F.fns.values():
+            if f["crate"] not in self.crates:
+                continue
+            for d, n in hirq.calls_in(f["hir"]):
+                if d in self.F.fns:
+                    args = n["args"] if n.get("k") == "Call" else [n["recv"]] + n["args"]
+                    self.calls.setdefault(d, []).append((f, args))
+            for n in walk(f["hir"]):
+                if n.get("k") == "Struct" and n.get("def"):
+                    for fl in n["fields"]:
+                        if "e" in fl:
+                            self.inits.setdefault((n["def"].split("<")[0], fl["name"]), []).append((f, fl["e"]))
+                if n.get("k") == "Assign":
+                    l = peel(n["l"])
+                    if l.get("k") == "Field":
+                        t = l.get("base_ty", "").lstrip("&").replace("mut ", "").strip().split("<")[0]
+                        self.inits.setdefault((t, l["name"]), []).append((f, n["r"]))
+
+    def resolve(self, f, e, depth=0, seen=None):
+        self._index()
+        if seen is None:
+            seen = set()
+        out = []
+        b = self.body(f)
+        for o in b.origins(e):
+            k = o.get("k")
+            if k == "Param" and depth < 6:
+                key = ("p", f["path"], o["index"])
+                if key in seen:
+                    continue
+                seen.add(key)
+                sites = self.calls.get(f["path"], [])
+                if not sites:
+                    out.append({"k": "OpenParam", "fn": f["path"], "index": o["index"]})
+                for cf, args in sites:
+                    if o["index"] < len(args):
+                        out.extend(self.resolve(cf, args[o["index"]], depth + 1, seen))
+            elif k == "Call" and peel(o["f"]).get("res") == "local" and depth < 6:
+                # call of a closure-typed local: expand through the closure(s) it can be
+                key = ("c", f["path"], peel(o["f"])["lid"], depth)
+                if key in seen:
+                    continue
+                seen.add(key)
+                targets = self.resolve(f, o["f"], depth + 1, seen)
+                hit = False
+                for t in targets:
+                    if t.get("k") == "Closure":
+                        hit = True
+                        owner = self.F.fns.get(t.get("def", "").rsplit("::{closure", 1)[0], f)
+                        out.extend(self.resolve(owner, t["body"], depth + 1, seen))
+                if not hit:
+                    out.append(o)
+            elif k == "TupleFieldOf" and depth < 6:
+                for o2 in self.resolve(f, o["of"], depth + 1, seen) if isinstance(o["of"], dict) and o["of"].get("k") not in (None, "Param", "OpenParam") else []:
+                    out.extend(b._project(o2, o["index"], set(), 0) if o2.get("k") in ("Tup", "Array") else [o2])
+                if isinstance(o["of"], dict) and o["of"].get("k") == "Param":
+                    key = ("p", f["path"], o["of"]["index"], "proj", o["index"])
+                    if key not in seen:
+                        seen.add(key)
+                        for cf, args in self.calls.get(f["path"], []):
+                            if o["of"]["index"] < len(args):
+                                for o2 in self.resolve(cf, args[o["of"]["index"]], depth + 1, seen):
+                                    out.extend(self.body(cf)._project(o2, o["index"], set(), 0) if o2.get("k") in ("Tup", "Array") else [o2])
+            elif k == "Field" and depth < 6:
+                t = o.get("base_ty", "").lstrip("&").replace("mut ", "").strip().split("<")[0]
+                key = ("f", t, o.get("name"))
+                if key in seen:
+                    continue
+                seen.add(key)
+                inits = self.inits.get((t, o.get("name")), [])
+                if not inits:
+                    out.append(o)
+                for cf, ie in inits:
+                    out.extend(self.resolve(cf, ie, depth + 1, seen))
+            else:
+                out.append(o)
+        return out
